@@ -288,6 +288,13 @@ def build_cases(ctx, n_raw, n_inc, n_bad):
         # all 6 reference regions appear, then random
         while k < n:
             c = gen_case(rng, cls, tref_region=REGIONS[k % 6] if k < 12 else None)
+            if cls == 'inc' and k % 3 == 0 and c.get('T_ref') is not None:
+                # read from non-dimensional YAML text instead of being constructed in Python; reference values of exactly zero included
+                c['via_yaml'] = True
+                if rng.random() < 0.35 and c.get('H') is not None:
+                    c['H'] = 0.0
+                if rng.random() < 0.35 and c.get('S') is not None:
+                    c['S'] = 0.0
             inside, out = eval_points(rng, c)
             c['evalTs'] = inside + out
             c['n_inside'] = len(inside)
@@ -307,6 +314,7 @@ def build_cases(ctx, n_raw, n_inc, n_bad):
         c = {'op': 'corr', 'cls': 'inc', 'Ts': [], 'Cps': [], 'T_ref': rng.choice([298.15, 300.0]),
              'range': rng.choice([None, [100.0, 1500.0]]), 'H': rng.choice([None, 0.0, -3.25]),
              'S': rng.choice([None, 0.0, 11.5]), 'evalTs': [298.15, 300.0, 99.0, 1000.0, 2000.0], 'tref_region': 'none'}
+        c['via_yaml'] = rng.random() < 0.5
         cases.append(c)
     return cases
 
